@@ -29,6 +29,16 @@
 (*                step, and afterwards ==, !=, hash, bool, get_pure_grade  *)
 (*                and inv() are asked of the SAME objects against twins    *)
 (*                that were built separately and never used;               *)
+(*        spc     the WAY the space is constructed is an input: Space(n),  *)
+(*                Space(names), get_euclidean_space(n), MultiVector(numpy  *)
+(*                vector) -- all without a metric_matrix, Euclidean -- and *)
+(*                an explicit metric given as object array / integer array *)
+(*                / Fraction entries / without a basis; operands a, b with *)
+(*                exact coefficients whose float images are NOT exact      *)
+(*                (1/3, 1/7, 3/7, -5/7, ..): the six products both ways,   *)
+(*                norm_squared, dual, square, inverse, the metric entries  *)
+(*                themselves, and the KIND of number of every coefficient  *)
+(*                (exact operands over an exact metric give exact kinds);  *)
 (*  (b) checks the property on the model: the Clifford axioms on the       *)
 (*      M-layer (C18_Clifford) and "the bitmap algorithm (C18_Bitmap)      *)
 (*      refines the meaning" on every generated case;                      *)
@@ -74,6 +84,7 @@ DimsFor(kd) ==
       [] kd = "eq"    -> 0..Min2(MaxN, 3)
       [] kd = "sym"   -> 2..Min2(MaxN, 3)
       [] kd = "hist"  -> 2..Min2(MaxN, IF Tier = "quick" THEN 3 ELSE 4)
+      [] kd = "spc"   -> 1..Min2(MaxN, IF Tier = "quick" THEN 3 ELSE 4)
 MetricsFor(kd, nn) ==
     CASE kd = "pair"   -> Metrics(nn)
       [] kd = "unary"  -> IF nn <= 4 THEN Metrics(nn) ELSE { gg \in Metrics(nn) : Spread(gg) = 0 }
@@ -91,11 +102,17 @@ MetricsFor(kd, nn) ==
       [] kd = "hist"   -> IF nn = 2 THEN { << 1, -1 >> } \cup (IF Tier = "quick" THEN {} ELSE { << 0, 2 >> })
                           ELSE IF nn = 3 THEN { << 2, 1, -1 >> } \cup (IF Tier = "quick" THEN {} ELSE { << 0, 1, -1 >> })
                           ELSE { << 1, -1, 2, 0 >> }
+      [] kd = "spc"    -> { [i \in 1..nn |-> 1] } \cup
+                          (CASE nn = 1 -> { << 2 >> } \cup (IF Tier = "quick" THEN {} ELSE { << -1 >> })
+                             [] nn = 2 -> { << 2, -1 >> } \cup (IF Tier = "quick" THEN {} ELSE { << 0, 1 >> })
+                             [] nn = 3 -> { << -1, 2, 1 >> } \cup (IF Tier = "quick" THEN {} ELSE { << 0, 1, -1 >> })
+                             [] OTHER  -> { << 1, -1, 2, 0 >> })
       [] kd = "eq"     -> IF nn = 0 THEN { << >> } ELSE IF nn = 1 THEN { << -1 >> }
                           ELSE IF nn = 2 THEN { << 1, -1 >> } ELSE { << 1, 1, 1 >>, << 0, 2, -1 >> }
 Arity(kd) == CASE kd = "pair" -> 3 [] kd = "triple" -> 3 [] kd = "unary" -> 1
                [] kd = "bilin" -> 4 [] kd = "eq" -> 3 [] kd = "sym" -> 2
                [] kd = "homog" -> 1 [] kd = "symeq" -> 2 [] kd = "hist" -> 3
+               [] kd = "spc" -> 3
 
 (* pools of multi-term multivectors (term lists) *)
 Multi(nn) ==
@@ -291,6 +308,43 @@ HistPoolB(nn) ==
          \cup (IF nn = 2 \/ Tier = "thorough" THEN { << >>, << T(<< 2 >>, F(1, 2)) >> } ELSE {})
          \cup (IF nn >= 3 THEN { << T(<< 1, 3 >>, I(-1)), T(<< 2, 3 >>, F(1, 2)) >> } ELSE {})
 
+(* space construction (spc).  Modes without a metric_matrix (the metric is   *)
+(* then Euclidean, so they exist for the all-ones metric only):              *)
+(*   default Space(n)    names Space([names])    euclid get_euclidean_space  *)
+(*   nd      MultiVector(numpy vector), no space given (vector operands)     *)
+(* modes with an explicit diagonal metric_matrix:                            *)
+(*   obj   object array of ints         int   integer (int64) array          *)
+(*   frac  object array, Fraction diagonal     monly  Space(None, matrix)    *)
+(* Coefficients: exact numbers whose float images are not exact, and small   *)
+(* integers; the products of two of them have denominators 3, 7, 9, 21, 49.  *)
+AllOnes(gg) == \A i \in 1..Len(gg) : gg[i] = 1
+SpcModes(gg) ==
+    IF AllOnes(gg)
+    THEN { "default", "names", "euclid", "nd", "obj", "int" }
+         \cup (IF Tier = "quick" THEN {} ELSE { "frac", "monly" })
+    ELSE { "obj", "int", "frac", "monly" }
+SpcCoefs(pos) ==
+    IF pos = 2 THEN { F(1, 3), F(-5, 7), I(2) } \cup (IF Tier = "quick" THEN {} ELSE { F(3, 7) })
+    ELSE { F(1, 7), I(-3) } \cup (IF Tier = "quick" THEN {} ELSE { F(2, 3) })
+SpcMulti(nn) ==
+    CASE nn = 1 -> { << T(<< >>, F(2, 3)), T(<< 1 >>, F(1, 3)) >> }
+      [] nn = 2 -> {
+      << T(<< 1 >>, F(1, 3)), T(<< 2 >>, F(-5, 7)) >>,
+      << T(<< >>, F(2, 3)), T(<< 1 >>, F(1, 7)), T(<< 1, 2 >>, F(3, 7)) >>,
+      << T(<< 2 >>, I(2)), T(<< 1, 2 >>, F(1, 7)) >> }
+      [] nn = 3 -> {
+      << T(<< 1 >>, F(1, 3)), T(<< 2 >>, F(1, 7)), T(<< 3 >>, I(2)) >>,
+      << T(<< >>, F(2, 3)), T(<< 2 >>, F(-1, 3)), T(<< 1, 3 >>, F(3, 7)), T(<< 1, 2, 3 >>, I(-2)) >>,
+      << T(<< 1 >>, F(2, 7)), T(<< 1, 2 >>, F(-5, 7)), T(<< 2, 3 >>, F(1, 3)) >> }
+      [] OTHER -> {
+      << T(<< 1 >>, F(1, 3)), T(<< 3 >>, F(1, 7)), T(<< 4 >>, I(-2)) >>,
+      << T(<< >>, F(1, 3)), T(<< 2, 4 >>, F(3, 7)), T(<< 1, 2, 3, 4 >>, F(-2, 3)) >>,
+      << T(<< 2 >>, F(2, 7)), T(<< 1, 2 >>, F(-5, 7)), T(<< 1, 3, 4 >>, F(1, 3)) >> }
+IsVecTerms(ts) == \A i \in 1..Len(ts) : Len(ts[i][1]) = 1
+SpcPool(nn, pos, sm) ==
+    LET all == { << T(b, c) >> : b \in Blades(nn), c \in SpcCoefs(pos) } \cup SpcMulti(nn)
+    IN  IF sm = "nd" THEN { m \in all : IsVecTerms(m) } ELSE all
+
 PairCoefs(nn) == IF nn <= 3 \/ (Tier = "thorough" /\ nn = 4)
                  THEN { << I(2), I(-3) >>, << F(3, 2), F(-2, 3) >> }
                  ELSE { << I(2), I(-3) >> }
@@ -304,6 +358,7 @@ Pool(kd, nn, pos) ==
       [] kd = "homog"  -> HomogPool(nn)
       [] kd = "symeq"  -> SymEqPool(nn)
       [] kd = "hist"   -> IF pos = 1 THEN HistPoolA(nn) ELSE IF pos = 2 THEN HistPoolB(nn) ELSE HistSeqs
+      [] kd = "spc"    -> IF pos = 1 THEN SpcModes(g) ELSE SpcPool(nn, pos, args[1])
       [] kd = "eq"     -> IF pos <= 2 THEN RecipePool(nn)
                           ELSE IF pos = 3 /\ args[1].via \in {"t", "b"} /\ args[2].via \in {"t", "b"}
                                THEN {0, 1} ELSE {0}
@@ -355,6 +410,8 @@ Case ==
                              pts |-> SymPts]
       [] kind = "hist"   -> [k |-> kind, n |-> n, g |-> g, a |-> args[1], b |-> args[2],
                              q |-> HistQ, steps |-> args[3]]
+      [] kind = "spc"    -> [k |-> kind, n |-> n, g |-> g, sm |-> args[1], a |-> args[2],
+                             b |-> args[3]]
 Emit == Complete => PrintT(ToJson(Case))
 
 (************************ the property on the model ************************)
@@ -476,6 +533,22 @@ HistModel ==
             /\ ImplInvD(d, n, g) = ImplInv(M, n, g)
     IN  MVBad(A) \/ MVBad(B) \/ (Obs(sN.a, A) /\ Obs(sN.b, B))
 
+(* space construction: whatever way the space was constructed, the bitmap  *)
+(* algorithm over its metric refines the meaning, and -- the operands being  *)
+(* exact and the metric entries of every construction being exact numbers -- *)
+(* no term of any product is computed with a float.                          *)
+SpcModel ==
+    LET A  == MVOfTerms(args[2], g)
+        B  == MVOfTerms(args[3], g)
+        mk == ImplMetricKind(args[1])
+    IN  /\ (args[1] \in DefaultMetricModes) => AllOnes(g)
+        /\ \A op \in Ops :
+              /\ LET m == MVProd(op, A, B, g)
+                     i == ImplProd(op, A, B, g)
+                 IN  MVBad(m) \/ MVBad(i) \/ m = i
+              /\ ~ImplProdInexact(op, A, B, g, mk) /\ ~ImplProdInexact(op, B, A, g, mk)
+        /\ ~ImplProdInexact("scl", MVRev(A), A, g, mk)
+
 BilinModel ==
     LET A == MVOfTerms(args[1], g)
         B == MVOfTerms(args[2], g)
@@ -502,5 +575,6 @@ ModelHolds ==
         [] kind = "symeq"  -> SymEqModel
         [] kind = "bilin"  -> BilinModel
         [] kind = "hist"   -> HistModel
+        [] kind = "spc"    -> SpcModel
         [] OTHER -> TRUE
 =============================================================================
